@@ -620,3 +620,38 @@ def added_stream_waits(prefix, caps=(1, 2)):
                             [S("add_stream", "rx", new="rxb")], threads,
                             [S("drop", "rx"), S("drop", "n2")], spins=[0, 0]))
     return out
+
+
+def with_drop_yield(scns):
+    """variants whose payload destructor contains a scheduling point (native exploration only)"""
+    out = []
+    for s in scns:
+        s2 = dict(s)
+        s2["name"] = s["name"] + "-dy"
+        s2["drop_yield"] = True
+        out.append(s2)
+    return out
+
+
+def add_vs_remove(prefix, caps=(1, 2), fut=False):
+    """an add_stream on one stream overlaps the removal of another stream (both swap the published list)"""
+    out = []
+    rcv = "poll" if fut else "recv"
+    snd = "start_send" if fut else "send"
+    for k, cap in enumerate(caps):
+        t = Topo("bcast", 1, [1, 1])
+        threads = [sends("tx", 101, cap + 2, api=snd),
+                   [S("drop", "s2")],
+                   [S("add_stream", "rx", new="n1"), S(rcv, "rx"), S(rcv, "rx")]]
+        hs = ("rx", "n1")
+        fin = [S("drain", "rx"), S("fill", "tx", v=9000, n=20), S("drain", "n1"), S("drop", "tx")] + \
+              [S("drain", h) for h in hs] + [S("drop", h) for h in hs]
+        out.append(scenario("%s-addrm%s-c%d-%d" % (prefix, "F" if fut else "", cap, k), "bcast", fut, cap, "busy",
+                            t.setup, threads, fin))
+        # three streams: two are removed while one is added
+        t = Topo("bcast", 1, [1, 1, 1])
+        threads = [[S("drop", "s2")], [S("unsub", "s3")], [S("add_stream", "rx", new="n1"), S(snd, "tx", v=101)]]
+        fin = [S("fill", "tx", v=9000, n=20), S("drain", "rx"), S("drain", "n1"), S("drop", "tx"), S("drop", "rx"), S("drop", "n1")]
+        out.append(scenario("%s-addrm3%s-c%d-%d" % (prefix, "F" if fut else "", cap, k), "bcast", fut, cap, "busy",
+                            t.setup, threads, fin))
+    return out
